@@ -578,6 +578,9 @@ class FuncEffects(ast.NodeVisitor):
                 args.append(AV(v.deep(), v.all()))
             else:
                 kwargs[k.arg] = v
+                if k.arg == "out":
+                    # numpy ufunc / function writing its result into an existing array
+                    self.effect(n, "out-argument", f"{_src(n.func)}(…, out={_src(k.value)})", v.own)
         # super().m(...)
         if isinstance(n.func, ast.Attribute) and isinstance(n.func.value, ast.Call) and isinstance(n.func.value.func, ast.Name) \
                 and n.func.value.func.id == 'super' and self.fi.cls is not None:
